@@ -902,6 +902,16 @@ def r_cand(ctx):
                 run.check(t[2] and t[2][0] == occ, 'R-CAND', f, 'I:inserts-at-occur', nd.lineno, 'insertion at occur_location',
                           'the insertion is made at %s, not at occur_location' % (show(t[2][0]) if t[2] else None),
                           inputs='every deletion error')
+        for d in nd.defs:
+            if d.kind == 'mutate' and isinstance(d.extra, ast.Attribute) and d.extra.attr == 'remove' and d.value is not None:
+                before = f.reaching(nd.id, d.name)
+                bts = [TermBuilder(f, f.defs[b].node).def_term(b) for b in before if f.defs[b].kind == 'assign']
+                if any(bt == ('call', ('g', 'builtins.list'), (strand,), ()) for bt in bts):
+                    run.refute('R-CAND', f, 'D:deletes-at-occur', nd.lineno,
+                               'the deletion candidate is built with `%s`: list.remove drops the FIRST element equal to the value, not the '
+                               'element at occur_location, so an earlier occurrence of the same nucleotide in the chunk is deleted '
+                               'instead' % ast.unparse(nd.stmt)[:60],
+                               inputs='insertion errors whose inserted nucleotide also occurs earlier in the look-back chunk')
         if isinstance(nd.stmt, ast.Delete):
             for tg in nd.stmt.targets:
                 if isinstance(tg, ast.Subscript):
